@@ -18,8 +18,12 @@ def is_version(value):
     try:
         value = str(value)
         version = AwesomeVersion(value)
-        # Words like "latest" or "dev" compare greater than any number.
-        if version.strategy == AwesomeVersionStrategy.SPECIALCONTAINER:
+        # Words like "latest" or "dev" compare greater than any number and
+        # a version of unknown form, like "7 .", can not be compared at all.
+        if version.strategy in (
+            AwesomeVersionStrategy.SPECIALCONTAINER,
+            AwesomeVersionStrategy.UNKNOWN,
+        ):
             raise ValueError()
         if AwesomeVersion("1.4") > version:
             raise ValueError()
